@@ -294,6 +294,7 @@ func run(rc *kernel.RunCtx) {
 		want     string // predicted message (computed before the run)
 		name     string
 		ctx      context.Context
+		shared   bool // the record value is handed out as it is, see sharedRecs
 	}
 	nTasks := tp.Range(1, 4)
 	plans := make([][]step, nTasks)
@@ -320,6 +321,14 @@ func run(rc *kernel.RunCtx) {
 		deriveNum = 3
 		rc.Stats.Probe("derive-heavy")
 	}
+	// A record value may be handed to more than one Handle call - by a fan-out
+	// handler that passes what it was given to several handlers, by a caller
+	// that logs one prepared record through two loggers - and copies of a
+	// Record share state.  Records drawn as shared are therefore never cloned by
+	// the harness, and later steps (of any task) may hand out the same value
+	// again.  ("Do not modify a Record after handing out a copy to it": the
+	// harness does not.)
+	var sharedRecs []slog.Record
 	// Scheduler-side record of what was handled.
 	var done []handled
 	seqs := make([]int, nTasks)
@@ -367,6 +376,15 @@ func run(rc *kernel.RunCtx) {
 			for a := nAttrs; a > 0; a-- {
 				r.AddAttrs(genAttr(tp, 0, ph))
 			}
+			switch {
+			case len(sharedRecs) > 0 && tp.Bool(1, 6):
+				r = sharedRecs[tp.Choose(len(sharedRecs))]
+				st.shared = true
+				rc.Stats.Probe("record-handled-again")
+			case tp.Bool(1, 5):
+				sharedRecs = append(sharedRecs, r)
+				st.shared = true
+			}
 			st.rec = r
 			st.ctx = ctx
 			if tp.Bool(1, 4) {
@@ -412,8 +430,12 @@ func run(rc *kernel.RunCtx) {
 				if !enabled {
 					continue
 				}
-				// Each Handle call gets its own record, as slog.Logger does.
-				rec := st.rec.Clone()
+				// Each Handle call gets its own record, as slog.Logger does,
+				// unless the record is one that is handed out repeatedly.
+				rec := st.rec
+				if !st.shared {
+					rec = rec.Clone()
+				}
 				want := st.want
 				err, pv, stack := safeHandle(h, st.ctx, rec)
 				if pv == error(errWriterPanic) {
